@@ -170,14 +170,15 @@ def capFqdn (rest : Bytes) (len : Nat) : Option (Cap × Nat) :=
   else match rest with
     | [] => none
     | hostlen :: rest1 =>
-        if hostlen + 2 > len then none
+        -- (a list element that is not an octet cannot be read as `u8`: a failed read)
+        if hostlen ≥ 256 ∨ hostlen + 2 > len then none
         else match takeN rest1 hostlen with
           | none => none
           | some (_, rest2) =>
               match rest2 with
               | [] => none
               | domainlen :: rest3 =>
-                  if 2 + hostlen + domainlen > len then none
+                  if domainlen ≥ 256 ∨ 2 + hostlen + domainlen > len then none
                   else match takeN rest3 domainlen with
                     | none => none
                     | some _ => some (.fqdn, 2 + hostlen + domainlen)
@@ -202,6 +203,52 @@ def capDecode (code : Nat) (rest : Bytes) (len : Nat) : Option (Cap × Nat) :=
   else if code = 73 then capFqdn rest len
   else capUnk code rest len
 
+/-! ### `Capability::decode` with the fixed-width arithmetic of the source
+
+  `len` is a `u8`.  Two arms compute with it: GRACEFUL_RESTART (`(len - 2) / 4` on `u8`, behind the `len % 4 != 2`
+  guard) and FQDN (`hostlen as u64 + 2`, `2u64 + hostlen as u64 + domainlen as u64`).  Here these are the checked
+  operations of `Basic` (overflow = panic in a debug build, wrap in a release build), so that "never panics" is a
+  statement about the guards and the widths; `capDecodeW_eq` (Sub proofs) shows they always succeed and give the value
+  of `capDecode`.  The other arms only divide `len` and read through the cursor (a failed read is `Err(())`). -/
+
+def capGrW (p : Profile) (rest : Bytes) (len : Nat) : Out (Option (Cap × Nat)) :=
+  if len % 4 ≠ 2 then .ok none
+  else match takeN rest 2 with
+    | none => .ok none
+    | some (r, rest1) => do
+        let n ← subU8 p len 2
+        .ok ((chunksN (n / 4) 4 rest1).map fun (xs, _) =>
+          (Cap.gr (be r / 4096) (be r % 4096) (xs.map famTuple4), len))
+
+def capFqdnW (p : Profile) (rest : Bytes) (len : Nat) : Out (Option (Cap × Nat)) :=
+  if len < 2 then .ok none
+  else match rest with
+    | [] => .ok none
+    | hostlen :: rest1 =>
+        if hostlen ≥ 256 then .ok none
+        else do
+          let s ← addU64 p hostlen 2
+          if s > len then .ok none
+          else match takeN rest1 hostlen with
+            | none => .ok none
+            | some (_, rest2) =>
+                match rest2 with
+                | [] => .ok none
+                | domainlen :: rest3 =>
+                    if domainlen ≥ 256 then .ok none
+                    else do
+                      let s1 ← addU64 p 2 hostlen
+                      let s2 ← addU64 p s1 domainlen
+                      if s2 > len then .ok none
+                      else match takeN rest3 domainlen with
+                        | none => .ok none
+                        | some _ => .ok (some (.fqdn, 2 + hostlen + domainlen))
+
+def capDecodeW (p : Profile) (code : Nat) (rest : Bytes) (len : Nat) : Out (Option (Cap × Nat)) :=
+  if code = 64 then capGrW p rest len
+  else if code = 73 then capFqdnW p rest len
+  else .ok (capDecode code rest len)
+
 /-! ## OPEN arm -/
 
 /-- `if let Capability::FourOctetAsNumber(asn) = &decoded { four_octet_asn = *asn }` -/
@@ -211,7 +258,7 @@ def as4After (cap : Cap) (as4 : Nat) : Nat :=
   | _ => as4
 
 /-- inner `while c.position() < op_end` -/
-def capLoop (buf : Bytes) (opEnd : Nat) : Nat → Nat → Nat → List Cap → Out (Nat × Nat × List Cap)
+def capLoop (p : Profile) (buf : Bytes) (opEnd : Nat) : Nat → Nat → Nat → List Cap → Out (Nat × Nat × List Cap)
   | 0, _, _, _ => .panic
   | fuel + 1, pos, as4, caps =>
       if pos < opEnd then
@@ -221,14 +268,16 @@ def capLoop (buf : Bytes) (opEnd : Nat) : Nat → Nat → Nat → List Cap → O
           let cl ← rd8 buf (pos + 1)
           let pos := pos + 2
           if opEnd < pos + cl then .err eOpenMalformed
-          else match capDecode ct (buf.drop pos) cl with
+          else do
+            let r ← capDecodeW p ct (buf.drop pos) cl
+            match r with
             | some (cap, used) =>
-                capLoop buf opEnd fuel (pos + used) (as4After cap as4) (caps ++ [cap])
+                capLoop p buf opEnd fuel (pos + used) (as4After cap as4) (caps ++ [cap])
             | none => .err eOpenMalformed
       else .ok (pos, as4, caps)
 
 /-- outer `while c.position() < param_end` -/
-def paramLoop (buf : Bytes) (paramEnd : Nat) : Nat → Nat → Nat → List Cap → Out (Nat × List Cap)
+def paramLoop (p : Profile) (buf : Bytes) (paramEnd : Nat) : Nat → Nat → Nat → List Cap → Out (Nat × List Cap)
   | 0, _, _, _ => .panic
   | fuel + 1, pos, as4, caps =>
       if pos < paramEnd then
@@ -239,14 +288,14 @@ def paramLoop (buf : Bytes) (paramEnd : Nat) : Nat → Nat → Nat → List Cap 
           let pos := pos + 2
           if paramEnd < pos + ln then .err eOpenMalformed
           else if ty = 2 then do
-            let (pos', as4', caps') ← capLoop buf (pos + ln) (buf.length + 1) pos as4 caps
-            paramLoop buf paramEnd fuel pos' as4' caps'
+            let (pos', as4', caps') ← capLoop p buf (pos + ln) (buf.length + 1) pos as4 caps
+            paramLoop p buf paramEnd fuel pos' as4' caps'
           else do
             let d ← slice buf (pos - 2) (pos + ln)
             .err ⟨2, 4, d⟩
       else .ok (as4, caps)
 
-def parseOpen (buf : Bytes) (hdrErr : Notif) : Out Msg :=
+def parseOpen (p : Profile) (buf : Bytes) (hdrErr : Notif) : Out Msg :=
   if buf.length < 29 then .err hdrErr
   else do
     let version ← rd8 buf 19
@@ -262,7 +311,7 @@ def parseOpen (buf : Bytes) (hdrErr : Notif) : Out Msg :=
           let plen ← rd8 buf 28
           if buf.length < 29 + plen then .err eOpenMalformed
           else do
-            let (as4, caps) ← paramLoop buf (29 + plen) (buf.length + 1) 29 0 []
+            let (as4, caps) ← paramLoop p buf (29 + plen) (buf.length + 1) 29 0 []
             let asn := if asn = 23456 then as4 else asn
             .ok (.open asn hold rid caps)
 
@@ -360,6 +409,105 @@ def attrDecode (code : Nat) (data : Bytes) (len : Nat) (two : Bool) : Option Att
   else if code = 3 then decExact 4 data len
   else if code = 26 then decAigp data
   else some (.bin data)
+
+/-! ### `Attribute::decode` with the indexing of the source
+
+  The arms that walk the value (`AS_PATH` in both widths, `AS4_PATH`, `AIGP`, the 6-byte `AGGREGATOR`) read the
+  buffer `b` of `len` bytes by index: `b[pos]`, `b[pos + 1]`, `b[start + 1]`, `b[pos + 2]`, `b[0]`, `b[1]`, `b[2..]`.
+  Here every such index is an explicit `rd8` / `slice` (out of range = panic, in either profile), guarded only by the
+  comparisons the source makes; positions are `usize` (sums of at most 2 + 255·4 per step over a buffer of at most
+  65535 bytes: no overflow).  `attrDecodeW_eq` (Sub proofs) shows that the guards suffice and that the result is
+  `attrDecode`. -/
+
+/-- `for i in 0..seg_count { let start = pos + 2 + i * 2; u16::from_be_bytes([b[start], b[start + 1]]) ... }` -/
+def widenW (b : Bytes) : Nat → Nat → Out Bytes
+  | _, 0 => .ok []
+  | start, n + 1 => do
+      let h ← rd8 b start
+      let l ← rd8 b (start + 1)
+      let r ← widenW b (start + 2) n
+      .ok (0 :: 0 :: h :: l :: r)
+
+/-- two-octet `AS_PATH`: `while pos < b.len() { ... }` -/
+def asPathUpW (b : Bytes) : Nat → Nat → Bytes → Out (Option Bytes)
+  | 0, _, _ => .panic
+  | fuel + 1, pos, out =>
+      if pos < b.length then
+        if pos + 2 > b.length then .ok none
+        else do
+          let t ← rd8 b pos
+          let c ← rd8 b (pos + 1)
+          if !segTypeOk t || c == 0 then .ok none
+          else if pos + 2 + c * 2 > b.length then .ok none
+          else do
+            let c' ← rd8 b (pos + 1)
+            let asns ← widenW b (pos + 2) c
+            asPathUpW b fuel (pos + 2 + c * 2) (out ++ [t, c'] ++ asns)
+      else .ok (some out)
+
+/-- four-octet `AS_PATH` / `AS4_PATH`: `pos += 2 + seg_count * 4; if pos > b.len() { Err }` -/
+def asPathOkW (b : Bytes) : Nat → Nat → Out Bool
+  | 0, _ => .panic
+  | fuel + 1, pos =>
+      if pos < b.length then
+        if pos + 2 > b.length then .ok false
+        else do
+          let t ← rd8 b pos
+          let c ← rd8 b (pos + 1)
+          if !segTypeOk t || c == 0 then .ok false
+          else if pos + 2 + c * 4 > b.length then .ok false
+          else asPathOkW b fuel (pos + 2 + c * 4)
+      else .ok true
+
+/-- `AIGP`: `tlv_len = u16::from_be_bytes([b[pos + 1], b[pos + 2]])` -/
+def aigpOkW (b : Bytes) : Nat → Nat → Out Bool
+  | 0, _ => .panic
+  | fuel + 1, pos =>
+      if pos < b.length then
+        if pos + 3 > b.length then .ok false
+        else do
+          let lh ← rd8 b (pos + 1)
+          let ll ← rd8 b (pos + 2)
+          let l := lh * 256 + ll
+          if l < 3 ∨ pos + l > b.length then .ok false
+          else aigpOkW b fuel (pos + l)
+      else .ok true
+
+def decAsPathW (data : Bytes) (two : Bool) : Out (Option AttrData) :=
+  if two then do
+    let r ← asPathUpW data (data.length + 1) 0 []
+    .ok (r.map .bin)
+  else do
+    let ok ← asPathOkW data (data.length + 1) 0
+    .ok (if ok then some (.bin data) else none)
+
+def decAs4PathW (data : Bytes) (len : Nat) : Out (Option AttrData) :=
+  if len % 2 ≠ 0 ∨ len < 6 then .ok none
+  else do
+    let ok ← asPathOkW data (data.length + 1) 0
+    .ok (if ok then some (.bin data) else none)
+
+/-- `AGGREGATOR` of 6 bytes: `[b[0], b[1]]` and `b[2..]` -/
+def decAggregatorW (data : Bytes) (len : Nat) : Out (Option AttrData) :=
+  if len ≠ 6 ∧ len ≠ 8 then .ok none
+  else if len = 6 then do
+    let h ← rd8 data 0
+    let l ← rd8 data 1
+    let rest ← slice data 2 data.length
+    .ok (some (.bin ([0, 0, h, l] ++ rest)))
+  else .ok (some (.bin data))
+
+def decAigpW (data : Bytes) : Out (Option AttrData) := do
+  let ok ← aigpOkW data (data.length + 1) 0
+  .ok (if ok then some (.bin data) else none)
+
+def attrDecodeW (code : Nat) (data : Bytes) (len : Nat) (two : Bool) : Out (Option AttrData) :=
+  if data.length ≠ len then .ok none
+  else if code = 2 then decAsPathW data two
+  else if code = 7 then decAggregatorW data len
+  else if code = 17 then decAs4PathW data len
+  else if code = 26 then decAigpW data
+  else .ok (attrDecode code data len two)
 
 /-! ## `Nexthop::from_bytes` followed by `to_bytes` -/
 
@@ -567,6 +715,17 @@ def attrDecoded (two : Bool) (buf : Bytes) (s : AState) (flags code alen pos : N
         { s with pos := pos + alen, errs := s.errs ++ [(code, flags)] }
       else { s with pos := pos + alen }
 
+/-- the same through the index-explicit decoder: this is what the attribute loop calls
+    (`attrDecodedW_eq`: it never panics and equals `attrDecoded`) -/
+def attrDecodedW (two : Bool) (buf : Bytes) (s : AState) (flags code alen pos : Nat) : Out AState := do
+  let r ← attrDecodeW code ((buf.drop pos).take alen) alen two
+  match r with
+  | some d => .ok (attrStore two { s with pos := pos + alen } ⟨code, flags, d⟩)
+  | none =>
+      if code ≠ 17 ∧ code ≠ 18 then
+        .ok { s with pos := pos + alen, errs := s.errs ++ [(code, flags)] }
+      else .ok { s with pos := pos + alen }
+
 /-- `(flags ^ expected_flags) & (TRANSITIVE | OPTIONAL) > 0` -/
 def flagsConflict (flags expected : Nat) : Bool := (flags ^^^ expected) &&& 0xc0 > 0
 
@@ -576,6 +735,12 @@ def attrKnown (two : Bool) (buf : Bytes) (s : AState) (flags code alen pos expec
   let s1 := if flagsConflict flags expected then { s with errs := s.errs ++ [(code, flags)] } else s
   if flagsConflict flags expected ∧ code ≠ 14 ∧ code ≠ 15 then { s1 with pos := pos + alen }
   else attrDecoded two buf s1 flags code alen pos
+
+/-- `attrKnown` through the index-explicit decoder -/
+def attrKnownW (two : Bool) (buf : Bytes) (s : AState) (flags code alen pos expected : Nat) : Out AState :=
+  let s1 := if flagsConflict flags expected then { s with errs := s.errs ++ [(code, flags)] } else s
+  if flagsConflict flags expected ∧ code ≠ 14 ∧ code ≠ 15 then .ok { s1 with pos := pos + alen }
+  else attrDecodedW two buf s1 flags code alen pos
 
 /-- an attribute of a type without canonical flags -/
 def attrUnknown (buf : Bytes) (s : AState) (flags code alen pos : Nat) : Out AState :=
@@ -596,7 +761,7 @@ def attrBody (two : Bool) (buf : Bytes) (s : AState) (flags code alen pos : Nat)
   else
     let s := { s with seen := code :: s.seen }
     match canonicalFlags code with
-    | some expected => .ok (attrKnown two buf s flags code alen pos expected)
+    | some expected => attrKnownW two buf s flags code alen pos expected
     | none => attrUnknown buf s flags code alen pos
 
 /-- `while c.position() < attr_end` -/
@@ -784,7 +949,7 @@ def parseMessageWith (lens : Bytes → Out (Nat × Nat)) (dec : HypDec) (p : Pro
     let code ← rd8 buf 18
     let d ← slice buf 16 18
     let hdrErr : Notif := ⟨1, 2, d⟩
-    if code = 1 then parseOpen buf hdrErr
+    if code = 1 then parseOpen p buf hdrErr
     else if code = 2 then parseUpdateWith lens dec p c buf hdrErr
     else if code = 3 then
       if buf.length < 21 then .err hdrErr
